@@ -417,26 +417,25 @@ def nlc(s, i):
 
 
 @pred
-def comment_of(result, region, start_line):
-    """result is the ImplicitComment for the free text `region`: lead is the first character that is not whitespace"""
-    return exists(lead, 0 <= lead < len(region), forall(p, 0 <= p < lead, region[p].isspace()) and not region[lead].isspace()
-                  and result._comment == region[lead:].rstrip() and isstr(result._raw) and sval(result._raw) == result._comment
-                  and len(result._comment) > 0 and isint(result._start_line_in_file)
-                  and ival(result._start_line_in_file) == start_line + nlc(region, lead))
+def free_text(self, end_char_index):
+    return self.bibstr[ival(self._implicit_comment_start):end_char_index]
 
 
 @contract(S + "_end_implicit_comment")
 class _:
-    """the free text from the pending implicit-comment start to end_char_index: nothing when no comment is pending or
-    the text is all whitespace; otherwise an ImplicitComment whose raw and comment are that text without its leading
-    whitespace and trailing whitespace, starting on the pending line plus the newlines among the leading whitespace"""
-    # ASSUMED in the proof of split(): 38 of its 40 obligations discharge, two (an all-whitespace text yields no
-    # comment; rstrip of a slice that starts with a non-blank is not empty) stay undecided in z3 and cvc5 (strings
-    # under quantifiers); the function is checked bounded by the native layer (p03) instead.
-    trusted = True
+    """the free text from the pending implicit-comment start to end_char_index (the `region`).  Ghost `lead` is the
+    index the scan for the first non-blank character stops at.  Proved: every character of the region before `lead` is
+    whitespace; the result is None exactly when nothing is pending or region[lead:].rstrip() is empty; otherwise it is
+    a fresh ImplicitComment whose raw and comment are region[lead:].rstrip() (non-empty) and whose start line is the
+    pending line plus the newlines before `lead` whenever region[lead] is not whitespace.
+
+    Read together with two facts about str.rstrip that are NOT proved here (A-STR: rstrip removes exactly the trailing
+    whitespace; it returns '' exactly for an all-whitespace string) this says: what is dropped around an implicit
+    comment is whitespace only, and nothing is returned exactly for a blank region."""
     sorts = {"self": "ref:Splitter", "end_char_index": "int", "result": "optref:ref:ImplicitComment"}
     requires = {"range": "implies(not isnone(self._implicit_comment_start), isint(self._implicit_comment_start) and 0 <= ival(self._implicit_comment_start) <= end_char_index <= len(self.bibstr))"}
     locals = {"comment": "str", "char": "str", "i": "int"}
+    ghost_code = [("comment = comment[i:].rstrip()", [("lead", None, "i")])]
     loops = {1: {"cursor": "_i", "invariant": {
         "index": "(_i == 0 and i == 0) or (_i > 0 and i == _i - 1)",
         "whitespace": "forall(p, 0 <= p < _i, comment[p].isspace())",
@@ -444,9 +443,26 @@ class _:
     }, "props": ("C03",)}}
     ensures = {
         "C03.nothing-pending": "implies(isnone(self._implicit_comment_start), isnone(result))",
-        "C03.comment": "implies(not isnone(result), fresh(result) and isint(self._implicit_comment_start) and comment_of(result, self.bibstr[ival(self._implicit_comment_start):end_char_index], self._implicit_comment_start_line))",
-        "C03.none-means-blank": "implies(isnone(result) and not isnone(self._implicit_comment_start), forall(p, 0 <= p < end_char_index - ival(self._implicit_comment_start), self.bibstr[ival(self._implicit_comment_start):end_char_index][p].isspace()))",
+        "C03.leading-whitespace": "implies(not isnone(self._implicit_comment_start), 0 <= ghost('lead') <= len(free_text(self, end_char_index)) and forall(p, 0 <= p < ghost('lead'), free_text(self, end_char_index)[p].isspace()))",
+        "C03.none-iff-rest-blank": "implies(not isnone(self._implicit_comment_start), isnone(result) == (free_text(self, end_char_index)[ghost('lead'):].rstrip() == ''))",
+        "C03.comment": "implies(not isnone(result), fresh(result) and result._comment == free_text(self, end_char_index)[ghost('lead'):].rstrip() and isstr(result._raw) and sval(result._raw) == result._comment and len(result._comment) > 0)",
+        "C03.comment-line": "implies(not isnone(result) and ghost('lead') < len(free_text(self, end_char_index)) and not free_text(self, end_char_index)[ghost('lead')].isspace(), isint(result._start_line_in_file) and ival(result._start_line_in_file) == self._implicit_comment_start_line + nlc(free_text(self, end_char_index), ghost('lead')))",
     }
+    raises = {}
+    modifies = ["ghost:lead:int"]
+
+
+@contract(S + "_end_implicit_comment#for-split")
+class _:
+    """the same function as seen by split(): all split() needs is that nothing but a fresh comment object comes back and
+    nothing is written (keeping the character-level clauses of the full contract out of split()'s proof context);
+    verified against the code like the full contract"""
+    for_callers = ["bibtexparser.splitter.Splitter.split"]
+    sorts = {"self": "ref:Splitter", "end_char_index": "int", "result": "optref:ref:ImplicitComment"}
+    requires = {"range": "implies(not isnone(self._implicit_comment_start), isint(self._implicit_comment_start) and 0 <= ival(self._implicit_comment_start) <= end_char_index <= len(self.bibstr))"}
+    locals = {"comment": "str", "char": "str", "i": "int"}
+    loops = {1: {"cursor": "_i", "invariant": {"index": "_i >= 0"}, "props": ("C03",)}}
+    ensures = {"C03.fresh-or-none": "implies(not isnone(result), fresh(result))"}
     raises = {}
     modifies = []
 
